@@ -197,10 +197,7 @@ type c07xRun struct {
 	justified   bool
 	whyNot      string
 	hasSnapshot bool
-	snapEP      string // external id of the entry point stored in the last snapshot ("" = none)
-	snapEPDead  bool   // that vector was soft-deleted at snapshot time or has been deleted since
 	labels      map[string]bool
-	excluded    int
 	nAsserted   int
 	nObserved   int
 	nInexactObs int
@@ -220,39 +217,6 @@ func (r *c07xRun) unjustify(why string) {
 	if r.justified {
 		r.justified = false
 		r.whyNot = why
-	}
-}
-
-// guardEP: known finding "deleted-entrypoint". While it is listed, no search or insert is executed
-// while the entry point is soft-deleted: a vacuum (which re-elects the entry point) is run first.
-func (r *c07xRun) guardEP() string {
-	if !verifkit.Known(c07FindingEP) {
-		return ""
-	}
-	g, err := c07ReadGraph(r.e)
-	if err != nil {
-		return "harness: " + err.Error()
-	}
-	if g.epDead() {
-		r.excluded++
-		r.labels["excluded:vacuum-before-use-of-deleted-entrypoint"] = true
-		if err := r.e.VTriggerMaintenance(c07Index, "vacuum"); err != nil {
-			return "harness: vacuum failed: " + err.Error()
-		}
-		return r.structure(true)
-	}
-	return ""
-}
-
-// noteSnapshot remembers which vector is the entry point inside the snapshot just written.
-func (r *c07xRun) noteSnapshot() {
-	r.hasSnapshot = true
-	r.snapEP, r.snapEPDead = "", false
-	if g, err := c07ReadGraph(r.e); err == nil && g.MaxLevel >= 0 {
-		if n := g.Nodes[g.EP]; n != nil {
-			r.snapEP = n.Id
-			r.snapEPDead = n.Deleted.Load()
-		}
 	}
 }
 
@@ -316,9 +280,6 @@ func c07Batch(items []c07Item) []types.BatchObject {
 func (r *c07xRun) step(i int, op c07Op) string {
 	switch op.K {
 	case "add", "batch", "import":
-		if m := r.guardEP(); m != "" {
-			return m
-		}
 		if m := r.beforeInsert(op.K, len(op.Items)); m != "" {
 			return m
 		}
@@ -348,9 +309,6 @@ func (r *c07xRun) step(i int, op c07Op) string {
 		}
 		r.labels["delete"] = true
 		r.mutBefore = true
-		if r.hasSnapshot && op.ID == r.snapEP {
-			r.snapEPDead = true
-		}
 		return r.structure(false)
 	case "vacuum":
 		g, err := c07ReadGraph(r.e)
@@ -378,7 +336,7 @@ func (r *c07xRun) step(i int, op c07Op) string {
 			return ""
 		}
 		r.prec = op.To
-		r.noteSnapshot()
+		r.hasSnapshot = true
 		r.labels["compress->"+op.To] = true
 		r.mutBefore = true
 		// the index was rebuilt from the live vectors by sequential inserts
@@ -390,23 +348,10 @@ func (r *c07xRun) step(i int, op c07Op) string {
 		if err := r.e.SaveSnapshot(); err != nil {
 			return "harness: SaveSnapshot failed: " + err.Error()
 		}
-		r.noteSnapshot()
+		r.hasSnapshot = true
 		r.labels["snapshot"] = true
 		return ""
 	case "restart":
-		// known finding "deleted-entrypoint", recovery flavour: loading a snapshot whose entry point the log
-		// tail deletes makes recovery re-insert the live vectors while the entry point is soft-deleted.
-		// While the finding is listed, a fresh snapshot is taken first (empty log tail).
-		if verifkit.Known(c07FindingEP) && r.hasSnapshot && r.snapEPDead {
-			if _, err := c07Hnsw(r.e); err == nil {
-				if err := r.e.SaveSnapshot(); err != nil {
-					return "harness: SaveSnapshot failed: " + err.Error()
-				}
-				r.noteSnapshot()
-				r.excluded++
-				r.labels["excluded:snapshot-before-restart(log tail deletes the snapshot's entry point)"] = true
-			}
-		}
 		if err := r.e.Close(); err != nil {
 			return "harness: Close failed: " + err.Error()
 		}
@@ -432,9 +377,6 @@ func (r *c07xRun) step(i int, op c07Op) string {
 		}
 		return r.structure(false)
 	case "query":
-		if m := r.guardEP(); m != "" {
-			return m
-		}
 		return r.query(op)
 	}
 	return "harness: unknown op " + op.K
@@ -653,9 +595,6 @@ func TestVerif_C07_exact(t *testing.T) {
 		}
 		msg, r := c07RunExact(c)
 		col.Case(c, r.nontrivial, append(r.labelList(), "replay")...)
-		if r.excluded > 0 {
-			col.Excluded(c07FindingEP)
-		}
 		if msg != "" {
 			if !c07IsHarnessError(msg) {
 				col.Fail(c, "%s", msg)
@@ -672,9 +611,6 @@ func TestVerif_C07_exact(t *testing.T) {
 		msg, r := c07RunExact(c)
 		col.Landed()
 		col.Case(c, r.nontrivial, r.labelList()...)
-		if r.excluded > 0 {
-			col.Excluded(c07FindingEP)
-		}
 		asserted += r.nAsserted
 		observed += r.nObserved
 		inexact += r.nInexactObs
